@@ -939,23 +939,34 @@ func nullableRules(r *Run, p *Prog, m *idlModel, root string) {
 				if v == nil {
 					continue
 				}
-				ld, ok := v.(*ssa.UnOp)
-				if !ok {
+				// the value is a member of a tree node: loaded through the node's address, or taken from a copy of
+				// the node (a range variable that the view turned into registers)
+				var holder ssa.Value // the node (address or value)
+				var named *types.Named
+				fieldNm := ""
+				switch y := v.(type) {
+				case *ssa.UnOp:
+					fa, ok := y.X.(*ssa.FieldAddr)
+					if !ok {
+						continue
+					}
+					pt, ok := fa.X.Type().Underlying().(*types.Pointer)
+					if !ok {
+						continue
+					}
+					named, _ = pt.Elem().(*types.Named)
+					holder, fieldNm = fa.X, fieldName(fa.X, fa.Field)
+				case *ssa.Field:
+					named, _ = y.X.Type().(*types.Named)
+					holder, fieldNm = y.X, fieldName(y.X, y.Field)
+				default:
 					continue // parameters, fresh nodes
 				}
-				fa, ok := ld.X.(*ssa.FieldAddr)
-				if !ok {
+				if named == nil {
 					continue
 				}
-				pt, ok := fa.X.Type().Underlying().(*types.Pointer)
-				if !ok {
-					continue
-				}
-				named, ok := pt.Elem().(*types.Named)
-				if !ok {
-					continue
-				}
-				key := member{named.Obj().Name(), fieldName(fa.X, fa.Field)}
+				fa := struct{ X ssa.Value }{holder}
+				key := member{named.Obj().Name(), fieldNm}
 				whyNull, isNullable := nullable[key]
 				if !isNullable {
 					continue
@@ -990,7 +1001,7 @@ func nullableRules(r *Run, p *Prog, m *idlModel, root string) {
 						before, _ := reachInstr(f, nil, func(i ssa.Instruction) bool { return i == in }, func(i ssa.Instruction) bool { return i.Block() == st.Block() || i == st }, nil)
 						if after && !before {
 							ok2, how = true, "after the generator's normalisation loop (a fresh node is stored wherever the member was nil)"
-						} else if after && sameSliceLaterLoop(T, f, st, fa, in) {
+						} else if after && sameSliceLaterLoop(T, f, st, fa.X, in) {
 							ok2, how = true, "after the generator's normalisation loop over the same slice (every element the later loop visits was visited, and set where nil, by the earlier complete loop)"
 						} else if after {
 							// same loop: on the nil edge of a dominating test every path to the use sets a fresh node
@@ -1011,6 +1022,7 @@ func nullableRules(r *Run, p *Prog, m *idlModel, root string) {
 		}
 	}
 	r.Stat("G1_deref_sites", n)
+	r.Floor("G1", 12)
 	if n == 0 {
 		r.Unresolved("G1", "dereferences of nullable tree members in the generator")
 	}
@@ -1143,7 +1155,7 @@ func loopHeaderOf(b *ssa.BasicBlock) *ssa.BasicBlock {
 
 // sameSliceLaterLoop: the normalising store `st` sits in a loop over slice S that always runs to completion (its only exit
 // is the header), that loop is finished before the loop containing `use` starts, and `use` dereferences an element of S.
-func sameSliceLaterLoop(T *Terms, f *ssa.Function, st ssa.Instruction, useFA *ssa.FieldAddr, use ssa.Instruction) bool {
+func sameSliceLaterLoop(T *Terms, f *ssa.Function, st ssa.Instruction, useHolder ssa.Value, use ssa.Instruction) bool {
 	store, ok := st.(*ssa.Store)
 	if !ok {
 		return false
@@ -1152,7 +1164,7 @@ func sameSliceLaterLoop(T *Terms, f *ssa.Function, st ssa.Instruction, useFA *ss
 	if !ok {
 		return false
 	}
-	s1, s2 := sliceOfElem(T, sfa.X), sliceOfElem(T, useFA.X)
+	s1, s2 := sliceOfElem(T, sfa.X), sliceOfElem(T, useHolder)
 	if s1 == "" || s1 != s2 {
 		return false
 	}
